@@ -37,6 +37,9 @@ const TOKEN_POOL: &[(&str, &str)] = &[
     ("add", "instr"), ("AND", "instr"), ("not", "instr"), ("br", "instr"), ("brnzp", "instr"), ("jsr", "instr"),
     ("ld", "instr"), ("ldr", "instr"), ("str", "instr"), ("ret", "instr"), ("rti", "instr"), ("jmp", "instr"),
     ("push", "instr"), ("call", "instr"), ("rets", "instr"), ("pop", "instr"), ("lea", "instr"),
+    // mnemonics with a letter too many, repeated or out of order: labels
+    ("brnn", "label"), ("brzz", "label"), ("brnzpp", "label"), ("brpnp", "label"), ("BRNN", "label"), ("brzn", "label"), ("brpz", "label"), ("brpzn", "label"),
+    ("brr", "label"), ("addd", "label"), ("nott", "label"), ("rett", "label"), ("jsrrr", "label"), ("ldii", "label"), ("haltt", "label"), ("retss", "label"), ("pushh", "label"),
     ("trap", "trap"), ("halt", "trap"), ("puts", "trap"), ("getc", "trap"), ("reg", "trap"),
     ("; comment", "comment"), (";", "comment"), ("@", "unknown"), ("$1", "unknown"), ("'c'", "unknown"),
     ("\u{e9}", "unknown"), ("-5", "unknown"), ("+", "unknown"), ("[r0]", "unknown"), ("\0", "unknown"),
@@ -245,6 +248,10 @@ const SEEDS: &[&str] = &[
     // the second definition of a label whose first one sits on a line that emits nothing
     "start .orig x3000\nstart lea r0 start\nhalt", "loop .break\nloop add r0 r0 #1", "a\n.break\na halt", "e .end\ne halt",
     "z .orig x3000\n.break\nz .break\nz halt", "dup\ndup halt", "dup .fill x1\ndup .fill x2\ndup .fill x3",
+    "brnn", "brzz add r0 r0 r0", "br brnzpp", "brpnp .fill x1", "BRNN", "ld r0 brzz", "brnzpp\nbrnzpp", "jsr addd",
+    // text after `.end`: long lines, multi-byte characters at every column around the places where a message might cut them
+    ".end\nabcdefghijklmnopqrstuv\u{e9}xyz and more", ".end\nabcdefghijklmnopqrstuvw\u{e9}xyz", ".end\n0123456789012345678901\u{20ac}", ".end\n\u{1F34B}\u{1F34B}\u{1F34B}\u{1F34B}\u{1F34B}\u{1F34B}\u{1F34B} lemons",
+    "halt\n.end\nthis line is longer than twenty-four bytes caf\u{e9}", ".END ; c\n          abcdefghijklmnopqrstuv\u{e9}",
     // a byte order mark (and other invisible characters) in front of very short files
     "\u{feff}", "\u{feff}halt", "\u{feff}r1\n", "\u{feff}ab", "\u{feff}ab;\u{2192}\nhalt\n", "\u{feff}x30", "\u{feff}#1", "\u{feff}.orig x3000", "\u{feff}\"s",
     "\u{feff}; c", "\u{feff}\nhalt", "\u{feff}lab halt\nbr lab", "\u{200b}halt", "\u{feff}\u{feff}halt", "halt\u{feff}", "\u{feff}add r0 r0 \u{e9}",
